@@ -18,8 +18,9 @@ hands out).  It builds programs out of
     (tab, 1/2/3/4/8 blanks), blank-line runs, blank-looking lines, comments in every position.
 
 Validity is never assumed: the check discards (and counts) every text that xonsh's own parser
-rejects.  `avoid` is a set of switch names (see SWITCHES); a switch that is on keeps the generator
-away from the shape of one recorded finding, and every avoided draw is counted in `self.avoided`."""
+rejects.  `avoid` is a set of finding ids (vlib.c17_findings.FINDINGS); an id in it keeps the
+generator away from the shape of that recorded finding (word classes, macro positions, f-string
+shapes, block-macro bodies ...), and every avoided draw is counted in `self.avoided`."""
 
 from __future__ import annotations
 
